@@ -42,6 +42,7 @@ type PathResult struct {
 	Acc     []access
 	CSect   int
 	Second  string // second-solver verdict on the deciding query, if asked
+	EngineOnly bool // assertion about an engine model (locks, heap graph): no native counterpart
 }
 
 type drawRec struct {
@@ -76,6 +77,8 @@ type Interp struct {
 	second   string // second solver binary for verdict queries ("" = none)
 	forkSites map[string]int
 	slowMs   int
+	labelPrefix string
+	skippedAsserts int
 	collected [][]*State
 	nMerged  int
 	stepCap  int
@@ -475,6 +478,22 @@ func (in *Interp) continueMerged(tmpl *State, kids []*State, retTo ssa.Value, he
 			}
 			ns.pc = append(ns.pc, disj)
 			ns.nforks++
+			// keep the shared-access records of every merged sub-path
+			base := len(tmpl.accesses)
+			for _, m := range g.members {
+				for _, a := range m.accesses[min(base, len(m.accesses)):] {
+					dup := false
+					for _, b := range ns.accesses[base:] {
+						if a.Cell == b.Cell && a.Write == b.Write && a.Held == b.Held && a.Fn == b.Fn {
+							dup = true
+							break
+						}
+					}
+					if !dup {
+						ns.accesses = append(ns.accesses, a)
+					}
+				}
+			}
 			in.sol.Assert(disj)
 			if retTo != nil {
 				mv := in.mergeVals(g.vals, g.conds)
